@@ -276,6 +276,26 @@ theorem follow_succ (w : World) (fuel : Nat) (abs : Path) :
         | some (NodeKind.link target) => w.follow fuel (retarget abs target)
         | _ => true := rfl
 
+theorem dropWhile_notslash (a : List Char) (h : '/' ∉ a) (r : List Char) :
+    (a ++ '/' :: r).dropWhile (· != '/') = '/' :: r := by
+  induction a with
+  | nil => simp
+  | cons c cs ih =>
+    have hc : c ≠ '/' := fun e => h (e ▸ List.mem_cons_self)
+    have hcs : '/' ∉ cs := fun hm => h (List.mem_cons_of_mem _ hm)
+    simp [hc, ih hcs]
+
+/-- a relative link target is resolved in the directory that holds the link -/
+theorem retarget_relative (x : Path) (n : Name) (hn : '/' ∉ n) (tgt : Path) (ht : tgt.head? ≠ some '/') :
+    retarget (x ++ '/' :: n) tgt = x ++ '/' :: tgt := by
+  have hrev : (x ++ '/' :: n).reverse = n.reverse ++ '/' :: x.reverse := by simp
+  have hn' : '/' ∉ n.reverse := by simpa using hn
+  simp only [retarget]
+  split
+  · rename_i hh; exact absurd (by simpa using hh) ht
+  · rw [hrev, dropWhile_notslash _ hn']
+    simp
+
 theorem joinPath_ne_nil (names : List Name) (hne : names ≠ []) (h : ∀ n, n ∈ names → plainName n = true) :
     joinPath names ≠ [] := by
   cases names with
